@@ -4,8 +4,8 @@
 usage: seed_sweep.py [ids...]"""
 import json, os, subprocess, sys, re, glob, shutil
 VERIF = os.path.dirname(os.path.dirname(os.path.abspath(__file__)))
-W = "/tmp/seedrun"
-EV = "/tmp/seedrun_evidence"
+W = os.environ.get("SWEEP_W", "/tmp/seedrun")
+EV = W + "_evidence"
 props = {json.loads(l)["id"]: json.loads(l) for l in open(os.path.join(VERIF, "properties.jsonl"))}
 manifest = json.load(open(os.path.join(VERIF, "MANIFEST.json")))
 registered = [c["property_id"] for c in manifest["checks"]]
